@@ -105,6 +105,44 @@ Sat(p, t) == \A I \in Intervals(p.scope, t) : SatPattern(p.pattern, t, I)
 SatAll(ps, t) == \A i \in 1..Len(ps) : Sat(ps[i], t)
 
 (***************************************************************************)
+(* Binding: does the monitor, following exactly the evaluation order of Sat, *)
+(* ever evaluate the predicate of an event in an environment that lacks an   *)
+(* alias the predicate refers to?  (Sat treats such a predicate as "does not *)
+(* match"; the binding-order rule of HplScoping is there so that this never  *)
+(* happens.)                                                                 *)
+(***************************************************************************)
+RECURSIVE Misses(_, _, _)
+\* event e is tried on message m under env: some alternative on m's channel refers to an alias env does not bind
+Misses(e, m, env) ==
+  IF e.cls = "HplEventDisjunction" THEN Misses(e.event1, m, env) \/ Misses(e.event2, m, env)
+  ELSE e.name = m.ch /\ (ExtRefs(e.predicate) \ (DOMAIN env)) # {}
+
+MissesInScope(sc, t) ==
+  LET n == Len(t) IN
+  CASE sc.scope_type = "GLOBAL" -> FALSE
+    [] sc.scope_type = "UNTIL" -> \E k \in 1..n : Misses(sc.terminator, t[k], EmptyEnv)
+    [] sc.scope_type = "AFTER" -> \E k \in 1..n : Misses(sc.activator, t[k], EmptyEnv)
+    [] OTHER -> \/ \E k \in 1..n : Misses(sc.activator, t[k], EmptyEnv)
+                \/ \E I \in AfterUntilFrom(sc.activator, sc.terminator, t, 0) :
+                      \E k \in (I.s + 1)..n : Misses(sc.terminator, t[k], I.env)
+
+MissesInPattern(pt, t, I) ==
+  LET b == pt.behaviour
+      a == pt.trigger
+      pos == Inside(I)
+  IN
+  CASE pt.pattern_type \in {"ABSENCE", "EXISTENCE"} -> \E k \in pos : Misses(b, t[k], I.env)
+    [] pt.pattern_type \in {"RESPONSE", "PREVENTION"} ->
+         \E k \in pos : \/ Misses(a, t[k], I.env)
+                         \/ (Matches(a, t[k], I.env) /\ \E j \in pos : j > k /\ Misses(b, t[j], EnvOf(a, t[k], I.env)))
+    [] pt.pattern_type = "REQUIREMENT" ->
+         \E k \in pos : \/ Misses(b, t[k], I.env)
+                         \/ (Matches(b, t[k], I.env) /\ \E j \in pos : j < k /\ Misses(a, t[j], EnvOf(b, t[k], I.env)))
+    [] OTHER -> FALSE
+
+UnboundEval(p, t) == MissesInScope(p.scope, t) \/ \E I \in Intervals(p.scope, t) : MissesInPattern(p.pattern, t, I)
+
+(***************************************************************************)
 (* The bus                                                                  *)
 (***************************************************************************)
 Now == IF tr = <<>> THEN 0 ELSE tr[Len(tr)].t
